@@ -3,7 +3,7 @@
    pseudo-randomness of the coefficients and "not in the clear" are measured by the check, not proved. *)
 From Coq Require Import ZArith NArith List.
 Import ListNotations.
-From StarV Require Import Params Bytes Strobe Fp PolyDefs Shamir Adss FieldFacts ShamirFacts AdssFacts.
+From StarV Require Import Params Bytes Strobe Fp PolyDefs Shamir Adss FieldFacts Lagrange ShamirFacts AdssFacts.
 
 (* fewer distinct points than the threshold recorded in the first share: refused, whatever else is there
    (repeats and foreign shares do not add distinct points of this polynomial; they only count as points) *)
@@ -36,3 +36,19 @@ Proof.
   intros St next64 fuel t secret s s' polys H.
   destruct (deal_polys_spec St next64 fuel t (chunks24 secret) s s' polys H) as (_ & A & _ & B). split; assumption.
 Qed.
+
+(* Shamir's perfect secrecy, algebraic form, over the proved field Fp: any collection of shares at distinct
+   non-zero points that is one short (or more) is consistent with EVERY candidate secret s' - there is a
+   polynomial with at most (number of shares + 1) coefficients, constant term s', through all of them;
+   (peval: coefficients lowest degree first; the code's Horner order is its reverse, Lagrange.horner_rev) *)
+Theorem C02_perfect_secrecy : forall (pts : list fp) (y : fp -> fp) (s' : fp), NoDup pts -> ~ In fzero pts ->
+  exists cs, (length cs <= S (length pts))%nat /\ peval fp fzero fadd fmul cs fzero = s' /\
+             forall a, In a pts -> peval fp fzero fadd fmul cs a = y a.
+Proof. exact (any_secret_consistent fp fzero fone fadd fmul fsub fopp fdiv finv feqb fp_field feqb_eq). Qed.
+(* and t points determine the polynomial: two polynomials of at most t coefficients that agree on t distinct
+   points agree everywhere *)
+Theorem C02_t_points_determine : forall (pts cs cs' : list fp), NoDup pts ->
+  (length cs <= length pts)%nat -> (length cs' <= length pts)%nat ->
+  (forall a, In a pts -> peval fp fzero fadd fmul cs a = peval fp fzero fadd fmul cs' a) ->
+  forall x, peval fp fzero fadd fmul cs x = peval fp fzero fadd fmul cs' x.
+Proof. exact (interpolation_unique fp fzero fone fadd fmul fsub fopp fdiv finv feqb fp_field feqb_eq). Qed.
